@@ -82,8 +82,13 @@ def run(chk):
         chk.ob("R1.opcodes", "Opcode", "no other opcodes", set(got) == set(OPCODES), f"variants {sorted(got)}")
     tf = prog.impl_fn(r"^<humphrey_ws::frame::Opcode as std::convert::TryFrom<u8>>$", "try_from")
     chk.floor("TryFrom<u8> for Opcode", len(tf), 1)
-    if tf and tables.main_table(prog, tf[0]) is None:
-        # no `match` on the byte: decide the same table on the MIR
+    hir_ok = False
+    if tf and tables.main_table(prog, tf[0]) is not None:
+        m0 = tables.main_table(prog, tf[0])
+        mp0, rest0, _ = tables.simple_map(m0, key_kinds=("lit",))
+        hir_ok = bool(mp0) and all(tables.unwrap(v0, "Ok") for v0 in mp0.values())
+    if tf and not hir_ok:
+        # no `match byte { n => Ok(Variant), .. }` table in the source: decide the same table on the MIR
         tb = prog.bodies[tf[0]]
         from .. import byteset
         fl = byteset.ByteFlow(prog, tb, ("param", 1, tb.local_name(1)))
@@ -99,6 +104,15 @@ def run(chk):
                         if d_[0] == "variant" and d_[1].endswith("frame::Opcode"):
                             for v_ in byteset.members(m_):
                                 got_map.setdefault(v_, set()).add(d_[2])
+                        elif d_[0] == "multi" and len(d_) > 4 and len(d_[1]) == len(d_[4]):
+                            # `let op = match byte { 0 => Continuation, .. }; Ok(op)`: each alternative holds for the bytes that reach its assignment
+                            for alt_, db_ in zip(d_[1], d_[4]):
+                                nm_ = alt_[2] if alt_[0] == "variant" and alt_[1].endswith("frame::Opcode") else "?"
+                                for v_ in byteset.members(fl.at_term.get(db_, 0) & m_):
+                                    got_map.setdefault(v_, set()).add(nm_)
+                        else:
+                            for v_ in byteset.members(m_):
+                                got_map.setdefault(v_, set()).add("?")
                     else:
                         err_mask |= m_
         if n_sites:
